@@ -19,9 +19,19 @@ pub struct SubRun {
     pub cfg: Cfg,
 }
 
-pub fn plan(tier: &str) -> Vec<SubRun> {
+pub fn plan(tier: &str, prop: &str) -> Vec<SubRun> {
     let mut v = Vec::new();
     let c = |n, a| Cfg { n, async_mode: a };
+    // properties for which SEQ is a secondary engine get a reduced quick plan (their primary engine carries the weight)
+    if tier == "quick" && matches!(prop, "C06" | "C20" | "C18") {
+        for n in [1, 2, 10_000] {
+            v.push(SubRun { key: "String", alphabet: "base", depth: 3, cfg: c(n, false) });
+        }
+        v.push(SubRun { key: "String", alphabet: "tiny", depth: 4, cfg: c(3, false) });
+        v.push(SubRun { key: "String", alphabet: "wide", depth: 2, cfg: c(2, false) });
+        v.push(SubRun { key: "String", alphabet: "tiny", depth: 3, cfg: c(2, true) });
+        return v;
+    }
     if tier == "quick" {
         for n in [1, 2, 10_000] {
             v.push(SubRun { key: "String", alphabet: "base", depth: 4, cfg: c(n, false) });
@@ -343,9 +353,9 @@ pub fn dispatch_sub(sr: &SubRun, slice: (u64, u64), seed: u64, res: &mut WorkerR
     }
 }
 
-pub fn run(tier: &str, slice: (u64, u64), seed: u64) -> WorkerResult {
+pub fn run(tier: &str, slice: (u64, u64), seed: u64, prop: &str) -> WorkerResult {
     let mut res = WorkerResult::new("seq");
-    for sr in plan(tier) {
+    for sr in plan(tier, prop) {
         dispatch_sub(&sr, slice, seed, &mut res);
     }
     res
